@@ -10,10 +10,13 @@ package keystore
 import (
 	"bufio"
 	"bytes"
+	"crypto/aes"
+	"crypto/cipher"
 	"crypto/sha256"
 	"encoding/hex"
 	"encoding/json"
 	"fmt"
+	"golang.org/x/crypto/scrypt"
 	"math/big"
 	"math/rand"
 	"os"
@@ -297,13 +300,34 @@ func TestVerifKeystore(t *testing.T) {
 		o, _ := json.Marshal(m)
 		return o
 	}
+	v1 := func(key *Key, pass string) []byte { // a version-1 file (AES-128-CBC, accepted on read, never written)
+		salt := make([]byte, 32)
+		rng.Read(salt)
+		dk := scryptKey([]byte(pass), salt)
+		iv := make([]byte, 16)
+		rng.Read(iv)
+		plain := common.LeftPadBytes(crypto.FromECDSA(key.PrivateKey), 32)
+		plain = append(plain, bytes.Repeat([]byte{16}, 16)...) // PKCS7: a full block of padding
+		blk, _ := aes.NewCipher(crypto.Keccak256(dk[:16])[:16])
+		ct := make([]byte, len(plain))
+		cipher.NewCBCEncrypter(blk, iv).CryptBlocks(ct, plain)
+		m := map[string]interface{}{"address": hex.EncodeToString(key.Address[:]), "id": key.Id.String(), "version": "1",
+			"crypto": map[string]interface{}{"cipher": "aes-128-cbc", "ciphertext": hex.EncodeToString(ct), "cipherparams": map[string]interface{}{"iv": hex.EncodeToString(iv)},
+				"kdf": "scrypt", "kdfparams": map[string]interface{}{"dklen": 32, "n": 2, "p": 1, "r": 8, "salt": hex.EncodeToString(salt)},
+				"mac": hex.EncodeToString(crypto.Keccak256(dk[16:32], ct))}}
+		o, _ := json.Marshal(m)
+		return o
+	}
 	for fi := 0; fi < nfiles; fi++ {
 		pass := passes[1+rng.Intn(len(passes)-1)]
 		key := mkKey(fi % 3)
 		var file []byte
-		if fi%3 == 2 {
+		switch fi % 4 {
+		case 2:
 			file = pbk(key, pass)
-		} else {
+		case 3:
+			file = v1(key, pass)
+		default:
 			file, _ = EncryptKey(key, pass, 2, 1)
 		}
 		if tryDecrypt(file, pass, key) != "original" {
@@ -358,6 +382,14 @@ func locateStr(file []byte, pos int) string {
 		j++
 	}
 	return string(file[i:j])
+}
+
+func scryptKey(pass, salt []byte) []byte {
+	dk, err := scrypt.Key(pass, salt, 2, 8, 1, 32)
+	if err != nil {
+		panic(err)
+	}
+	return dk
 }
 
 func pbkdf2Key(pass, salt []byte, c, n int) []byte { return pbkdf2.Key(pass, salt, c, n, sha256.New) }
